@@ -37,6 +37,7 @@ FLOOR = 64.0
 AFFINE_REAL = 4096.0
 AFFINE_CSTEP = 64.0
 K_DIR = 1e4
+OVERFLOW = 1e150
 METHODS = ['central', 'forward', 'backward', 'complex', 'multicomplex']
 GRIDS = [(1, 2), (2, 1), (2, 2), (2, 3), (3, 2), (2, 4), (4, 2), (1, 5), (3, 1)]
 CONST_PATH = os.path.join(os.path.dirname(os.path.dirname(os.path.abspath(__file__))), 'constants.json')
@@ -162,6 +163,8 @@ class C03(Prop):
             ctx.skip(res)
         d, steps, ratio, scale, base = res
         self._base = base
+        if an.max_majorant(width * max(float(np.max(t)) for t in steps)) > OVERFLOW:
+            ctx.skip('function values exceed 1e150 on the sampled region (overflow)')
         rule_len = int(np.size(d.fd_rule.rule(ratio)))
         k_est = len(steps) - rule_len + 1
         if k_est < 1:
@@ -407,6 +410,8 @@ class C03(Prop):
         if isinstance(res, str):
             ctx.skip(res)
         d0, steps0, ratio0, scale0, _base0 = res
+        if an.max_majorant(w * max(float(np.max(t)) for t in steps0)) > OVERFLOW:
+            ctx.skip('function values exceed 1e150 on the sampled region (overflow)')
         k0 = len(steps0) - int(np.size(d0.fd_rule.rule(ratio0))) + 1
         if k0 < 1:
             ctx.skip('fewer steps than the rule needs (misuse, see C11)')
